@@ -154,10 +154,67 @@ func runC02(r *core.Run) {
 		cliStreamEval(r, c)
 		r.Distinct(core.Hash64(c.Stream.Render()))
 	})
+	c02RealCLI(r)
 	for k := 1; k <= 3; k++ {
 		rr := core.NewRand(r.Seed, 25, uint64(k))
 		cliStreamEval(r, &cliStreamCase{Stream: gen.GenStream(rr, &gen.StreamCfg{MaxDumps: 0, EndWithheld: k})})
 	}
+}
+
+// c02RealCLI: real crash output X of the repository's cmd/panic inside other text: pp(pre ++ X ++ post) must be
+// pre ++ pp(X) ++ post (post starts with a line that cannot continue a dump), and the library must account for
+// every byte (hook-based conservation, no generator knowledge of where the dump is).
+func c02RealCLI(r *core.Run) {
+	names := realCrashNames()
+	r.Set("real_crash_scenarios", len(names))
+	core.Parallel(len(names), workers(), func(k int) {
+		x := realCrashes()[names[k]]
+		pre := "2026/10/02 service starting\n"
+		post := "exit status 2\n2026/10/02 restarting\n"
+		if !bytes.HasSuffix(x, []byte("\n")) {
+			return
+		}
+		in := append(append([]byte(pre), x...), post...)
+		args := [][]string{{"-rebase=false"}, {}, {"-rebase=false", "-aggressive"}}[k%3]
+		whole := runPP(in, nil, args...)
+		alone := runPP(x, nil, args...)
+		r.Eval(2)
+		r.Count("pp_runs", 2)
+		if whole.TimedOut || alone.TimedOut {
+			r.Inconclusive("pp watchdog fired on real crash output")
+			return
+		}
+		want := append(append([]byte(pre), alone.Stdout...), post...)
+		if whole.Exit != 0 || alone.Exit != 0 || !bytes.Equal(whole.Stdout, want) {
+			i := firstDiff(whole.Stdout, want)
+			r.Violation("cli-real-conservation", fmt.Sprintf("cmd/panic %s: pp(pre ++ crash ++ post) != pre ++ pp(crash) ++ post (exit %d/%d), first difference at %d: %q vs %q", names[k], whole.Exit, alone.Exit, i, b2s(tailFrom(whole.Stdout, i), 120), b2s(tailFrom(want, i), 120)), "clireal", map[string]any{"name": names[k], "input": string(in)})
+			return
+		}
+		// library: every input byte is forwarded, withheld as part of a dump (scan hook), or returned
+		res := resumeAll(in, plainOpts(), nil, 0, true, 16)
+		if res.Panic != nil || res.NoProgress {
+			r.Violation("real-panic", fmt.Sprintf("cmd/panic %s: %v", names[k], res.Panic), "clireal", map[string]any{"name": names[k], "input": string(in)})
+			return
+		}
+		var acc bytes.Buffer
+		for ci := range res.Calls {
+			c := &res.Calls[ci]
+			if c.ConsErr != "" {
+				r.Violation("real-conservation", fmt.Sprintf("cmd/panic %s call %d: %s", names[k], ci, c.ConsErr), "clireal", map[string]any{"name": names[k], "input": string(in)})
+				return
+			}
+			if hw := hookWithheld(c); !bytes.Equal(hw, c.Withheld) {
+				r.Violation("real-hook-accounting", fmt.Sprintf("cmd/panic %s call %d: %d bytes withheld, the scanner reports %d bytes consumed", names[k], ci, len(c.Withheld), len(hw)), "clireal", map[string]any{"name": names[k], "input": string(in)})
+				return
+			}
+			acc.Write(c.Prefix)
+			acc.Write(c.Withheld)
+			if ci == len(res.Calls)-1 {
+				acc.Write(c.Suffix)
+			}
+		}
+		r.Distinct(core.Hash64(in))
+	})
 }
 
 func replayC02(r *core.Run, kind string, raw json.RawMessage) {
